@@ -975,3 +975,8 @@ fn replay(opts: &Opts, d: &Value, acc: &mut Acc) {
     }
     acc.inconclusive.push("C18 replay: neither source nor genome given".into());
 }
+
+/// libFuzzer entry: one generated source with its corruptions and truncations
+pub fn fuzz_case(genome: &[u8], acc: &mut Acc) -> Vec<Failure> {
+    check_generated(genome, 7, 12, acc)
+}
